@@ -804,6 +804,8 @@ class Exec:
             if isinstance(a, Model):
                 return a.m_isinstance(self, st, args[1], node)
             if is_sym(a):
+                if args[1] is str and getattr(a, 'is_str', None) is not None:
+                    return a.is_str          # a value that is either a string (tag) or a number / None: symbolic answer
                 if args[1] is int or args[1] == (int,):
                     return isinstance(a, (SInt,))
                 raise NotInSubset('isinstance on symbolic value')
